@@ -67,6 +67,10 @@ def builder_ops():
     ops += [("add_directed_edge", (u, v)) for u in BUILD_NAMES for v in BUILD_NAMES if u != v]
     ops += [("add_undirected_edge", (u, v)) for u in BUILD_NAMES for v in BUILD_NAMES if u != v]
     ops += [("copy", ())]
+    # functional operations as steps: the result becomes the live object, the receiver must never change afterwards
+    for name in GRAPH_OPS:
+        for arg in ((), ("A",), ("A", "B")):
+            ops.append((name, arg))
     return ops
 
 
@@ -116,6 +120,13 @@ def _explore_builder(res: Res, prefix, tier):
                         res.violation("copy", case, "copy() returned the receiver")
                     originals.append((y, snapshot(y), ref))
                     y = c
+                elif op in GRAPH_OPS:
+                    if not set(args) <= set(ref.nodes):
+                        break  # argument names a node that does not exist yet: not a meaningful step
+                    real, model = GRAPH_OPS[op]
+                    c = real(y, _vs(args))
+                    originals.append((y, snapshot(y), ref))
+                    y, ref = c, model(ref, args)
                 else:
                     y, ref = _apply_builder(y, ref, op, args)
             except Exception as e:  # noqa
@@ -132,8 +143,8 @@ def _explore_builder(res: Res, prefix, tier):
                 break
             res.outcomes["builder_step_ok"] += 1
         for o, snap, oref in originals:
-            if snapshot(o) != snap:
-                res.violation("receiver_mutated", {"builder_ops": hist}, "mutating a copy changed the original graph")
+            if snapshot(o) != snap or triple(o) != ref_triple(oref):
+                res.violation("receiver_mutated", {"builder_ops": hist}, "mutating a derived graph changed the graph it was derived from")
         if len(seq) == depth and len(res.samples) < 2 and seq[0] > 3:
             res.sample({"builder_ops": hist})
 
@@ -148,7 +159,7 @@ def describe(tier):
         "rule": "state = (base graph, insertion order, operation sequence); transition = one real y0 call whose "
         "result is compared with the set-triple reference model",
         "bound_builder": "plus every sequence of mutating builder operations (add_node, add_directed_edge, add_undirected_edge over "
-        "3 names, copy) of depth %d from the empty graph, with every query operation run on the live object after every step"
+        "3 names, copy, and the functional operations as steps) of depth %d from the empty graph, with every query operation run on the live object after every step"
         % BUILD_DEPTH[tier],
         "assumptions": [
             "moralize is specified by its docstring: same nodes and directed edges, undirected = original + co-parents",
